@@ -313,18 +313,18 @@ def run(ctx):
         scripts = gen_scripts(ctx, rng, 2, 8, "{0, 6000}", k=None)
     else:
         scripts = gen_scripts(ctx, rng, 2, 8, "{0, 1000, 6000}", k=None)
-        scripts += gen_scripts(ctx, rng, 3, 6, "{0, 6000}", k=1500)
+        scripts += gen_scripts(ctx, rng, 3, 6, "{0, 6000}", k=5000)
     run_batch(ctx, scripts, "G-bwe", par=8 if quick else 12)
     # the same family through cc.Interceptor
     ccs = gen_scripts(ctx, rng, 2, 8, "{6000}", k=40 if quick else 300, level="cc", pacers=["rec", "noop", "leaky", "default"])
     run_batch(ctx, ccs, "G-cc", level="cc", par=8)
     # (T) seeded random scripts, concurrent feeders/closer
-    nr, rounds = (60, 6) if quick else (400, 14)
+    nr, rounds = (60, 6) if quick else (800, 14)
     rs = [random_script(rng, "bwe", rounds) for _ in range(nr)]
     rs += [random_script(rng, "bwe", rounds, pacer="default") for _ in range(6 if quick else 40)]
     cs = combos(rng, default_share=False)
     rs += [paced_script(rng, cs[i % len(cs)][0], cs[i % len(cs)][1], cs[i % len(cs)][2], 5 if quick else 12)
-           for i in range(32 if quick else 96)]
+           for i in range(32 if quick else 200)]
     if quick:   # a few loss scripts also in the quick tier (about 1.2 s each, run in parallel with the others)
         rs += [loss_script(rng, c, rng.choice(PACERS[:3]), f) for c in (1, 3, 0) for f in FBS]
     run_batch(ctx, rs, "T-random", par=16)
@@ -333,8 +333,8 @@ def run(ctx):
                        cs[i % len(cs)][2], feeders=2 if i % 3 else 3, writes=3 if quick else 5) for i in range(ncon)]
     run_batch(ctx, con, "T-conc", par=8 if quick else 12)
     if not quick:
-        ls = [loss_script(rng, c, p, f) for c in range(len(CONFIGS)) for p in PACERS[:3] for f in FBS for _ in range(3)]
-        ls += [random_script(rng, "bwe", 8, loss_waits=True) for _ in range(60)]
+        ls = [loss_script(rng, c, p, f) for c in range(len(CONFIGS)) for p in PACERS[:3] for f in FBS for _ in range(6)]
+        ls += [random_script(rng, "bwe", 8, loss_waits=True) for _ in range(120)]
         run_batch(ctx, ls, "T-loss", par=16)
         run_batch(ctx, [conc_script(rng, c % 4, "rec", FBS[c % 2], feeders=3, writes=4) for c in range(24)], "T-conc-race",
                   par=4, race=True)
